@@ -191,6 +191,42 @@ def _slice(t, lo, w):
         return not_(slice_(t[2], lo, w))
     if op == "select":
         return select(t[2], slice_(t[3], lo, w), slice_(t[4], lo, w))
+    if op in ("shl", "lshr", "ashr") and lo == 0 and (1 << t[3][1]) - 1 < t[1]:
+        X = t[2]
+        if op == "shl":
+            return shift("shl", slice_(X, 0, w), t[3], True)
+        hi = slice_(X, w, t[1] - w)
+        y = slice_(X, 0, w)
+        if op == "lshr" and is_zero(hi):
+            return shift("lshr", y, t[3], True)
+        if op == "ashr" and hi[0] == "rep" and hi[2] is msb(y):
+            return shift("ashr", y, t[3], True)
+    if op == "lshrsat" and lo == 0 and 2 * w == t[1]:
+        X = t[2]
+        if slice_(X, 0, w) is slice_(X, w, w):
+            x = slice_(X, 0, w)
+            m = t[3]
+            if w & (w - 1) == 0 and m[0] in ("sub", "add"):
+                k = _w_minus_k(m, w)
+                if k is not None and k[1] <= w.bit_length() - 1:
+                    return fsh("fshl", x, x, k)
+    if op == "shlsat" and lo == w and 2 * w == t[1]:
+        X = t[2]
+        if slice_(X, 0, w) is slice_(X, w, w):
+            x = slice_(X, 0, w)
+            m = t[3]
+            if w & (w - 1) == 0 and m[0] in ("sub", "add"):
+                k = _w_minus_k(m, w)
+                if k is not None and k[1] <= w.bit_length() - 1:
+                    return fsh("fshr", x, x, k)
+    if op == "shlsat":
+        X = t[2]
+        if lo == 0:
+            return shift("shl", slice_(X, 0, w), t[3], True)
+        if is_zero(slice_(X, 0, lo)):
+            return shift("shl", slice_(X, lo, w), t[3], True)
+    if op in ("lshrsat", "ashrsat") and lo + w == t[1]:
+        return shift(op[:-3], slice_(t[2], lo, w), t[3], True)
     if op == "popsum" and lo == 0 and popsum_max(t) < (1 << w):
         return popsum(w, popsum_items(t), t[2])
     if op == "popsum" and lo > 0 and popsum_max(t) < (1 << lo):
@@ -477,6 +513,14 @@ def nary(op, w, xs):
             others = [x for x in rest if x is not r]
             inner = nary("and", w, others) if len(others) > 1 else others[0]
             return select(r[2], inner, const(w, 0))
+    if op == "or" and len(rest) == 2:
+        r = _rot_match(rest[0], rest[1]) or _rot_match(rest[1], rest[0])
+        if r is not None:
+            return r
+    if op == "and" and len(rest) == 2:
+        r = _shiftmask_match(rest[0], rest[1]) or _shiftmask_match(rest[1], rest[0])
+        if r is not None:
+            return r
     if op in ("or", "and", "xor") and len(rest) >= 2 and all(x[0] == "rep" for x in rest):
         return rep(w, nary(op, 1, [x[2] for x in rest]))
     if op == "or" and len(rest) >= 2:
@@ -510,6 +554,68 @@ def nary(op, w, xs):
         return rest[0]
     rest.sort(key=ser)
     return mk(op, w, *rest)
+
+
+def _is_w_minus(m, k, w):
+    """m == w - zext(k) as terms (any width)"""
+    if m[0] == "sub" and m[2][0] == "const" and m[2][2] == w:
+        return strip_zext(m[3]) is k
+    if m[0] == "add":
+        # w + neg(zext k)
+        cs = [x for x in m[2:] if x[0] == "const"]
+        ns = [x for x in m[2:] if x[0] == "neg"]
+        if len(m) == 4 and cs and ns and cs[0][2] == w:
+            return strip_zext(ns[0][2]) is k
+    return False
+
+
+def _w_minus_k(m, w):
+    """if m == w - zext(k) return k"""
+    if m[0] == "sub" and m[2][0] == "const" and m[2][2] == w:
+        return strip_zext(m[3])
+    if m[0] == "add" and len(m) == 4:
+        cs = [x for x in m[2:] if x[0] == "const"]
+        ns = [x for x in m[2:] if x[0] == "neg"]
+        if cs and ns and cs[0][2] == w:
+            return strip_zext(ns[0][2])
+    return None
+
+
+def _rot_match(p, q):
+    """or(shlsat(x,k), lshrsat(x, w-k)) with k < w  ->  rotate left by k"""
+    if p[0] == "shlsat" and q[0] == "lshrsat" and p[2] is q[2]:
+        w = p[1]
+        k, m = p[3], q[3]
+        if w & (w - 1) == 0 and k[1] <= w.bit_length() - 1 and _is_w_minus(m, k, w):
+            return fsh("fshl", p[2], p[2], k)
+        if w & (w - 1) == 0 and m[1] <= w.bit_length() - 1 and _is_w_minus(k, m, w):
+            return fsh("fshr", p[2], p[2], m)
+    return None
+
+
+def _shiftmask_match(v, m):
+    """and(window of (X << s), low bits of (ones << s)) -> window(X) << s
+    and(window of (X >> s), low bits of (ones >> s)) -> window(X) >> s (logical)"""
+    w = v[1]
+    if m[0] == "slice" and m[3] == 0:
+        sh_ = m[2]
+    else:
+        sh_ = m
+    if sh_[0] not in ("shl", "shlsat", "lshr", "lshrsat") or sh_[2][0] != "const":
+        return None
+    kind = sh_[0].replace("sat", "")
+    c = sh_[2][2]
+    if v[0] == "slice":
+        X, lo = v[2], v[3]
+    else:
+        X, lo = v, 0
+    if X[0] != kind + "sat" or X[3] is not sh_[3]:
+        return None
+    if kind == "shl" and (c & mask(w)) == mask(w):
+        return shift("shl", slice_(X[2], lo, w), X[3], True)
+    if kind == "lshr" and c == mask(w) and sh_[1] >= w:
+        return shift("lshr", slice_(X[2], lo, w), X[3], True)
+    return None
 
 
 def and_(a, b):
@@ -612,6 +718,26 @@ def shift(kind, x, amt, sat):
         return {"shl": shl_c, "lshr": lshr_c, "ashr": ashr_c}[kind](x, min(c, w))
     # strip leading zero bits of the amount (zext)
     amt = strip_zext(amt)
+    if not sat and (1 << amt[1]) - 1 < w:
+        sat = True      # the amount cannot reach the width: no poison case
+    if kind == "ashr" and amt[0] == "select" and amt[4][0] == "const" and amt[4][2] == w - 1:
+        # ashr(x, min(k, w-1)) == saturating arithmetic shift by k
+        c, A = amt[2], strip_zext(amt[3])
+        if c[0] == "icmp" and c[2] == "ult" and c[4][0] == "const" and c[4][2] == w - 1 and c[3] is A:
+            return mk("ashrsat", w, x, A)
+    if kind == "ashr" and amt[0] == "call:llvm.umin" and any(y[0] == "const" and y[2] == w - 1 for y in amt[2:]):
+        A = [y for y in amt[2:] if y[0] != "const"]
+        if len(A) == 1:
+            return mk("ashrsat", w, x, strip_zext(A[0]))
+    if sat and x[0] == "concat" and len(x) >= 3:
+        top = x[-1]
+        low = concat(list(x[2:-1]))
+        if kind == "ashr" and top[0] == "rep" and top[2] is msb(low):
+            return sext(shift("ashr", low, amt, True), w)
+        if kind == "lshr" and is_zero(top):
+            return zext(shift("lshr", low, amt, True), w)
+    if x[0] == "const" and x[2] == 0:
+        return x
     return mk(kind + ("sat" if sat else ""), w, x, amt)
 
 
@@ -632,6 +758,12 @@ def fsh(kind, a, b, amt):
         if kind == "fshl":
             return slice_(cc, w - c, w) if c else a
         return slice_(cc, c, w)
+    if w & (w - 1) == 0:
+        lg = w.bit_length() - 1
+        if amt[1] > lg:
+            amt = slice_(amt, 0, lg)
+        if amt[0] == "const":
+            return fsh(kind, a, b, amt)
     return mk(kind, w, a, b, strip_zext(amt))
 
 
@@ -968,6 +1100,20 @@ def select(c, a, b):
                 x, y = (a[2] >> i) & 1, (b[2] >> i) & 1
                 parts.append(const(1, x) if x == y else (c if x else not_(c)))
             return concat(parts)
+    if c[0] == "icmp" and c[2] in ("ugt", "uge") and c[4][0] == "const" and \
+            b[0] in ("shlsat", "lshrsat", "ashrsat", "shl", "lshr", "ashr"):
+        K = c[4][2] + (0 if c[2] == "uge" else 1)       # condition: amt >= K
+        amt = b[3]
+        kind = b[0].replace("sat", "")
+        if strip_zext(c[3]) is amt and (K >= w if b[0].endswith("sat") else K == w):
+            # explicit guard "amount >= width ? fill : x shift amount" == saturating shift
+            if kind in ("shl", "lshr") and is_zero(a):
+                return mk(kind + "sat", w, b[2], amt)
+            if kind == "ashr" and a is rep(w, msb(b[2])):
+                return mk(kind + "sat", w, b[2], amt)
+    if c[0] == "icmp" and c[2] == "eq" and is_zero(c[4]) and b[0] in ("fshl", "fshr") and \
+            b[2] is b[3] and a is b[2] and strip_zext(c[3]) is b[4]:
+        return b        # rotation by 0 is the identity
     if a[0] == "rep" and b[0] == "const" and (b[2] == 0 or b[2] == mask(w)):
         return rep(w, select(c, a[2], const(1, 1 if b[2] else 0)))
     if b[0] == "rep" and a[0] == "const" and (a[2] == 0 or a[2] == mask(w)):
@@ -997,6 +1143,74 @@ def select(c, a, b):
             lo = k
         return concat(parts)
     return mk("select", w, c, a, b)
+
+
+# ---------------------------------------------------------------- saturation / truth tables
+
+def saturate(kind, x, ow):
+    """kind 'us': signed source -> unsigned saturate to ow bits;
+       'ss': signed source -> signed saturate to ow bits"""
+    w = x[1]
+    if x[0] == "const":
+        v = _signed(x[2], w)
+        if kind == "us":
+            return const(ow, max(0, min(v, mask(ow))))
+        return const(ow, max(-(1 << (ow - 1)), min(v, (1 << (ow - 1)) - 1)))
+    if kind == "us" and x[0] == "concat":
+        # zero-extended value that fits: exact truncation
+        lowparts = slice_(x, ow, w - ow)
+        if is_zero(lowparts):
+            return slice_(x, 0, ow)
+    if kind == "ss":
+        hi = slice_(x, ow - 1, w - ow + 1)
+        if hi[0] == "rep" or hi[1] == 1:
+            # sign-extended value that fits
+            return slice_(x, 0, ow)
+    return mk("sat" + kind, ow, x)
+
+
+def truth3(a, b, c, imm):
+    """bitwise function of three values given by an 8-entry truth table"""
+    w = a[1]
+    vs = []
+    for v in (a, b, c):
+        if not any(v is u for u in vs):
+            vs.append(v)
+    idx = [[i for i, u in enumerate(vs) if u is v][0] for v in (a, b, c)]
+    nv = len(vs)
+    tt = []
+    for row in range(1 << nv):
+        bits_ = [(row >> (nv - 1 - k)) & 1 for k in range(nv)]
+        ra, rb, rc = bits_[idx[0]], bits_[idx[1]], bits_[idx[2]]
+        tt.append((imm >> ((ra << 2) | (rb << 1) | rc)) & 1)
+
+    def synth(vars_, table):
+        if all(t == 0 for t in table):
+            return const(w, 0)
+        if all(t == 1 for t in table):
+            return const(w, mask(w))
+        v = vars_[0]
+        half = len(table) // 2
+        f0 = synth(vars_[1:], table[:half]) if len(vars_) > 1 else const(w, mask(w) if table[0] else 0)
+        f1 = synth(vars_[1:], table[half:]) if len(vars_) > 1 else const(w, mask(w) if table[1] else 0)
+        if f0 is f1:
+            return f0
+        if is_zero(f0) and all_ones(f1):
+            return v
+        if all_ones(f0) and is_zero(f1):
+            return not_(v)
+        if is_zero(f0):
+            return and_(v, f1)
+        if is_zero(f1):
+            return and_(not_(v), f0)
+        if all_ones(f1):
+            return or_(v, f0)
+        if all_ones(f0):
+            return or_(not_(v), f1)
+        if f1 is not_(f0):
+            return xor(v, f0)
+        return or_(and_(v, f1), and_(not_(v), f0))
+    return synth(vs, tt)
 
 
 # ---------------------------------------------------------------- population sums
@@ -1295,6 +1509,11 @@ def _ev(t, env, memo):
         return fencode(math.sqrt(x), w)
     if o == "call:llvm.fabs":
         return ev(t[2], env, memo) & (M >> 1)
+    if o in ("satus", "satss"):
+        x = _signed(ev(t[2], env, memo), t[2][1])
+        if o == "satus":
+            return max(0, min(x, M))
+        return max(-(1 << (w - 1)), min(x, (1 << (w - 1)) - 1)) & M
     if o == "popsum":
         v = t[2]
         for b, m in popsum_items(t):
